@@ -302,6 +302,9 @@ class Model:
                 self._nested(now, act)
             elif a[0] == "done":
                 self.done()
+            elif a[0] == "done+ns":
+                self.done()
+                self.enter(a[1])
         self.req = False
 
     def _nested(self, now, act):
@@ -359,8 +362,12 @@ class Ctx:
         self.maxdev = maxdev
         self.depth = 0
         self.allow_actions = True
+        self.nest_limit = 2
         regs = [s["name"] for s in sh["states"] if s["kind"] != "default"]
         self.menu = [("none",)] + [("ns", n) for n in regs] + [("nsn", n) for n in regs] + [("done",)]
+        if sh["auto"]:
+            # an autonomous mode may end itself and still ask for a transition in the same call
+            self.menu += [("done+ns", n) for n in regs]
         self.kinds = {s["name"]: s["kind"] for s in sh["states"]}
 
     def on_done(self, sm):
@@ -368,7 +375,7 @@ class Ctx:
 
     def on_call(self, sm, nm, tag, kw):
         self.events.append(("call", nm, tag, {k: (F(v) if k != "initial_call" else v) for k, v in kw.items()}))
-        can = self.allow_actions and self.kinds[nm] != "default" and self.depth < 2 and (self.maxdev is None or self.dev < self.maxdev)
+        can = self.allow_actions and self.kinds[nm] != "default" and self.depth < self.nest_limit and (self.maxdev is None or self.dev < self.maxdev)
         menu = self.menu if can else self.menu[:1]
         c = self.ch.choose(len(menu), "act@" + nm, dev=True)
         a = menu[c]
@@ -385,6 +392,9 @@ class Ctx:
                 self.depth -= 1
         elif a[0] == "done":
             sm.done()
+        elif a[0] == "done+ns":
+            sm.done()
+            sm.next_state(a[1])
 
 
 def op_menu(sh, period_open=None, seen_enable=None):
@@ -422,10 +432,10 @@ def alt_duration(orig):
 class Exec:
     """Result of one execution."""
 
-    __slots__ = ("trace", "err", "key", "nops", "model")
+    __slots__ = ("trace", "err", "key", "nops", "model", "nest")
 
 
-def run_execution(sh, ch, nops, maxdev, want_key=False, actions_from=0, opset=None):
+def run_execution(sh, ch, nops, maxdev, want_key=False, actions_from=0, opset=None, nest=True):
     """Run `nops` operations (explorer-chosen) on a fresh real machine and on the model in lock step.
     Returns Exec; err = None or (observable, why, message) of the first disagreement."""
     from magicbot.magic_tunable import setup_tunables
@@ -433,6 +443,7 @@ def run_execution(sh, ch, nops, maxdev, want_key=False, actions_from=0, opset=No
     env.align()
     env.nt_maybe_reset()
     ctx = Ctx(ch, sh, maxdev)
+    ctx.nest_limit = 2 if nest else 1
     cls = build_class(sh, ctx)
     sm = cls()
     sm.logger = _LOGGER  # MagicRobot injects a logger into every component / mode
@@ -541,6 +552,7 @@ def run_execution(sh, ch, nops, maxdev, want_key=False, actions_from=0, opset=No
     ex.trace = trace
     ex.err = step_err
     ex.nops = nops
+    ex.nest = nest
     ex.model = model
     if want_key and step_err is None:
         ex.key = (model.key(env.now(), lt + 4), impl_fingerprint(sm), period_open, seen_enable)
@@ -795,16 +807,16 @@ def _recorder(sh, res, want, maxdev_default, seed):
             obs, why, msg = ex.err
             ps = props_of(obs, why, sh["auto"]) & want
             if ps:
-                rp = dict(engine="sm", shape=sh, choices=list(ch.choices), nops=ex.nops, maxdev=md, opset=opset, mode=mode, failing_step=len(ex.trace) - 1, trace=_jsonable(ex.trace), source=class_source(sh))
+                rp = dict(engine="sm", shape=sh, choices=list(ch.choices), nops=ex.nops, maxdev=md, opset=opset, nest=ex.nest, mode=mode, failing_step=len(ex.trace) - 1, trace=_jsonable(ex.trace), source=class_source(sh))
                 res.violation(f"{obs}:{why}", f"shape {sh['name']} ({mode}), step {len(ex.trace)-1} {ex.trace[-1]['op']}: {msg}\n" + fmt_trace(ex.trace), rp)
         for (p, clause, msg) in monitors(sh, ex.trace):
             if p in want:
-                rp = dict(engine="sm", shape=sh, choices=list(ch.choices), nops=ex.nops, maxdev=md, opset=opset, mode=mode, trace=_jsonable(ex.trace), source=class_source(sh))
+                rp = dict(engine="sm", shape=sh, choices=list(ch.choices), nops=ex.nops, maxdev=md, opset=opset, nest=ex.nest, mode=mode, trace=_jsonable(ex.trace), source=class_source(sh))
                 res.violation(f"monitor:{clause}", f"shape {sh['name']} ({mode}): {msg}\n" + fmt_trace(ex.trace), rp)
         res.outcome(core.stable_hash(norm_obs(ex.trace)))
         counter[0] += 1
         if counter[0] % rerun_every == rerun_off:
-            ex2 = run_execution(sh, core.Chooser(ch.choices), ex.nops, md, opset=opset)
+            ex2 = run_execution(sh, core.Chooser(ch.choices), ex.nops, md, opset=opset, nest=getattr(ex, "nest", True))
             a, b = norm_obs(ex.trace), norm_obs(ex2.trace)
             if a != b:
                 diff = [(x, y) for x, y in zip(a, b) if x != y][:2]
@@ -826,15 +838,15 @@ def explore_level(item):
     found = []
     for prefix in item["prefixes"]:
         def run(ch):
-            ex = run_execution(sh, ch, d + 1, item.get("maxdev"), want_key=True, opset=item.get("opset"))
+            ex = run_execution(sh, ch, d + 1, item.get("maxdev"), want_key=True, opset=item.get("opset"), nest=item.get("nest", True))
             record(ex, ch, item.get("label", "bfs"), item.get("maxdev"), item.get("opset"))
             res.transitions += 1
             if ex.key is not None:
                 found.append((ex.key, tuple(ch.choices)))
         core.explore_dfs(run, max_dev=item.get("maxdev"), roots=[tuple(prefix)])
     for p1, p2, n1, n2 in item.get("probes", ()):
-        o1 = probe_obs(sh, tuple(p1), n1)
-        o2 = probe_obs(sh, tuple(p2), n2)
+        o1 = probe_obs(sh, tuple(p1), n1, item.get("nest", True))
+        o2 = probe_obs(sh, tuple(p2), n2, item.get("nest", True))
         res.add("merge_probes")
         if o1 != o2:
             res.violation("merge-unsound", f"shape {sh['name']}: histories {p1} and {p2} were merged but behave differently: {o1} vs {o2}", dict(engine="sm", shape=sh, p1=list(p1), p2=list(p2)))
@@ -847,7 +859,7 @@ def initial_key(sh):
     return run_execution(sh, core.Chooser(()), 0, None, want_key=True).key
 
 
-def bfs_all(pool, res, shapes_depths, pid, seed, probe_every, opset=None, maxdev=None, label="bfs"):
+def bfs_all(pool, res, shapes_depths, pid, seed, probe_every, opset=None, maxdev=None, label="bfs", nest=False):
     """Level-synchronous BFS with canonical-state merging for several shapes at once; the frontier of each
     level is expanded by the worker pool, de-duplication happens here."""
     seen = {}
@@ -872,7 +884,7 @@ def bfs_all(pool, res, shapes_depths, pid, seed, probe_every, opset=None, maxdev
                 continue
             chunk = 12
             for k in range(0, len(fr), chunk):
-                items.append(dict(shape=byname[n], prefixes=fr[k:k + chunk], depth=level, props=[pid], seed=seed, probes=pending_probes[n][:4] if k == 0 else (), opset=opset, maxdev=maxdev, label=label))
+                items.append(dict(shape=byname[n], prefixes=fr[k:k + chunk], depth=level, props=[pid], seed=seed, probes=pending_probes[n][:4] if k == 0 else (), opset=opset, maxdev=maxdev, label=label, nest=nest))
             pending_probes[n] = []
         if not items:
             break
@@ -919,24 +931,24 @@ PROBES = [
 ]
 
 
-def probe_obs(sh, prefix, nops_prefix=None):
+def probe_obs(sh, prefix, nops_prefix=None, nest=True):
     """Relativized observations of fixed continuations run after a history (merge-soundness probe)."""
     out = []
     if nops_prefix is None:
-        nops_prefix = _count_ops(sh, prefix)
+        nops_prefix = _count_ops(sh, prefix, nest)
     for probe in PROBES:
-        out.append(_run_with_tail(sh, prefix, nops_prefix, probe))
+        out.append(_run_with_tail(sh, prefix, nops_prefix, probe, nest))
     return out
 
 
-def _count_ops(sh, prefix):
+def _count_ops(sh, prefix, nest=True):
     ch = core.Chooser(prefix)
     # run with a large op budget but stop when the prefix is consumed
     n = 0
     # cheap way: replay increasing op counts until all prefix choices are consumed
     while True:
         ch = core.Chooser(prefix)
-        ex = run_execution(sh, ch, n, None)
+        ex = run_execution(sh, ch, n, None, nest=nest)
         if ch.i >= len(prefix):
             return n
         n += 1
@@ -944,7 +956,7 @@ def _count_ops(sh, prefix):
             raise core.HarnessError("cannot locate op boundary of prefix")
 
 
-def _run_with_tail(sh, prefix, nops_prefix, tail_ops):
+def _run_with_tail(sh, prefix, nops_prefix, tail_ops, nest=True):
     if sh["auto"]:
         return None
     menu = op_menu(sh)
@@ -964,7 +976,7 @@ def _run_with_tail(sh, prefix, nops_prefix, tail_ops):
                 return c
             return super().choose(n, label, dev)
     ch = TailChooser(prefix, idx)
-    ex = run_execution(sh, ch, nops_prefix + len(tail_ops), None)
+    ex = run_execution(sh, ch, nops_prefix + len(tail_ops), None, nest=nest)
     obs = []
     for st in ex.trace[nops_prefix:]:
         calls = [(e[1], e[3].get("initial_call")) for e in st["real"]["events"] if e[0] == "call"]
@@ -1056,7 +1068,7 @@ def run_check(pid, tier, seed, shapes, nops, maxdev, bfs_depth, rule_extra="", p
         "duration-topic edits, execute after a clock advance of 0/1/2/3/long ticks) with at most `flat_deviation_bound` non-trivial in-state "
         "actions (next_state / next_state_now / done, asked at every state-function invocation), run on a fresh real machine and the "
         "reference model in lock step (prefix-replay DFS); then breadth-first search with canonical state merging to `bfs_depth` operations "
-        "with unbounded in-state actions, and a second, deeper BFS (`timing_bfs`) over the clock / engage / done / duration-edit operations with passive states. states = distinct canonical states, transitions = operations executed and compared, "
+        "with an unbounded number of in-state actions (one per state-function call; the target of a next_state_now is passive there), and a second, deeper BFS (`timing_bfs`) over the clock / engage / done / duration-edit operations with passive states. states = distinct canonical states, transitions = operations executed and compared, "
         "distinct outcome = distinct observed trace (calls with arguments, is_executing, current_state per step). " + rule_extra
     )
     assumptions = [
@@ -1089,7 +1101,7 @@ def pytest_source(rp, pid="", sig=""):
     L.append("TICK_US = 15625  # 1/64 s: exact in binary floating point")
     L.append("CALLS = []")
     L.append(f"SCRIPT = {script!r}  # what each state-function invocation does, in invocation order\n")
-    L.append("class _Ctx:\n    def on_done(self, sm):\n        CALLS.append(('done',))\n    def on_call(self, sm, name, tag, kw):\n        CALLS.append((name, dict(kw)))\n        act = SCRIPT.pop(0) if SCRIPT else ['none']\n        if act[0] == 'ns':\n            sm.next_state(act[1])\n        elif act[0] == 'nsn':\n            sm.next_state_now(act[1])\n        elif act[0] == 'done':\n            sm.done()\n\n_ctx = _Ctx()\n")
+    L.append("class _Ctx:\n    def on_done(self, sm):\n        CALLS.append(('done',))\n    def on_call(self, sm, name, tag, kw):\n        CALLS.append((name, dict(kw)))\n        act = SCRIPT.pop(0) if SCRIPT else ['none']\n        if act[0] == 'ns':\n            sm.next_state(act[1])\n        elif act[0] == 'nsn':\n            sm.next_state_now(act[1])\n        elif act[0] == 'done':\n            sm.done()\n        elif act[0] == 'done+ns':\n            sm.done()\n            sm.next_state(act[1])\n\n_ctx = _Ctx()\n")
     L.append(rp.get("source") or class_source(sh))
     L.append("\ndef test_replay():")
     L.append("    hs.pauseTiming()\n    rem = wpilib.RobotController.getFPGATime() % TICK_US\n    if rem:\n        hs.stepTimingAsync(TICK_US - rem)")
@@ -1154,7 +1166,7 @@ def replay(path):
     for s in sh["states"]:
         s["sig"] = tuple(s["sig"])
     ch = core.Chooser(r["choices"])
-    ex = run_execution(sh, ch, r["nops"], r.get("maxdev"), opset=[tuple(o) if isinstance(o, list) else o for o in r["opset"]] if r.get("opset") else None)
+    ex = run_execution(sh, ch, r["nops"], r.get("maxdev"), opset=[tuple(o) if isinstance(o, list) else o for o in r["opset"]] if r.get("opset") else None, nest=r.get("nest", True))
     print(class_source(sh))
     print(fmt_trace(ex.trace))
     mon = monitors(sh, ex.trace)
